@@ -69,7 +69,64 @@ def string_pieces(e):
         return lits, args
     if x[0] == "call" and x[1].fn.startswith("core::fmt::Arguments::<'a>::from_str"):
         return q.const_strs(x), []
+    seq = _concat_pieces(x, 0)
+    if seq is not None and len(seq) > 1:
+        # `[a, b].join(".")`, `[a, ".x"].concat()`, `a.to_owned() + ".x"`: the same text as `format!("{}.x", a)`
+        lits, args = [], []
+        for (k, v) in seq:
+            if k == "lit":
+                if lits and lits[-1][1]:
+                    lits[-1][0] += v
+                else:
+                    lits.append([v, True])
+            else:
+                args.append(v)
+                if lits:
+                    lits[-1][1] = False
+        return [l[0] for l in lits], args
     return q.const_strs(x), [x]
+
+
+_STR_VIEWS = ("alloc::string::String::as_str", "alloc::borrow::ToOwned::to_owned", "alloc::string::ToString::to_string", "core::clone::Clone::clone",
+              "core::convert::From::from", "core::convert::Into::into", "core::ops::deref::Deref::deref", "core::convert::AsRef::as_ref",
+              "core::borrow::Borrow::borrow", "alloc::str::<impl str>::to_string", "alloc::str::<impl str>::to_owned")
+
+
+def _concat_pieces(e, depth):
+    """[("lit", text) | ("arg", expr)] in order for a string put together by `+`, `concat` or `join`; None when it is none of those."""
+    x = q.peel(e)
+    if depth > 6:
+        return None
+    if x[0] == "const" and "str" in x[1]:
+        return [("lit", x[1]["str"])]
+    if x[0] == "call":
+        fn, args = x[1].fn, x[2]
+        if fn in _STR_VIEWS and len(args) == 1 and ("str" in (x[1].res or x[1].fnx or "") or "String" in (x[1].res or x[1].fnx or "") or fn == "alloc::string::String::as_str"):
+            inner = _concat_pieces(args[0], depth + 1)
+            return inner if inner is not None and (len(inner) > 1 or inner[0][0] == "lit") else [("arg", strip(args[0]))]
+        if fn == "core::ops::arith::Add::add" and len(args) == 2 and "String" in (x[1].res or x[1].fnx or ""):
+            l, r = _concat_pieces(args[0], depth + 1), _concat_pieces(args[1], depth + 1)
+            return (l or [("arg", strip(args[0]))]) + (r or [("arg", strip(args[1]))])
+        if fn in ("alloc::slice::<impl [T]>::join", "alloc::slice::<impl [T]>::concat") and args:
+            arr = q.peel(args[0])
+            n = 0
+            while arr[0] in ("cast", "ref", "deref") and n < 6:
+                arr = q.peel(arr[1])
+                n += 1
+            if arr[0] != "agg" or arr[1].get("agg") != "array":
+                return None
+            sep = None
+            if fn.endswith("::join"):
+                sep = _concat_pieces(args[1], depth + 1)
+                if sep is None or len(sep) != 1 or sep[0][0] != "lit":
+                    return None
+            out = []
+            for i, item in enumerate(arr[2]):
+                if i and sep:
+                    out += sep
+                out += _concat_pieces(item, depth + 1) or [("arg", strip(item))]
+            return out
+    return None
 
 
 def map_inserts(body, raw_operand):
